@@ -194,7 +194,7 @@ def rule_r1(chk):
                       "(want 3..6 below the header rows it was told)")
         except (fin.NotFinite, KeyError, TypeError) as ex:
             ok, detail = None, f"usecols / skip_header not evaluable: {ex}"
-    chk.ob("C19-R1", "databoxes._imports._read_array_for_block", ok, detail, im.loc(ra))
+    chk.ob("C19-R1", "databoxes._imports._read_array_for_block", ok, detail, im.loc(ra), sure=True)
     ad = im.func("_add_series_for_block")
     src = squash(ad)
     ok = "array=array[block.row_index,:]" in src and "series.set_data(block.periods,array[:,columns])" in src and "Series(num_variants=len(columns),description=description)" in src
@@ -304,7 +304,7 @@ def rule_r2(chk):
         chk.ob("C19-R2", "databoxes.main.Databox._resolve_source_target_names", bad is None,
                f"{len(cases)} finite cases (None / str / list / predicate sources, None / str / list / function targets, strict on/off, missing "
                "names first, in the middle, all): sources and targets stay paired and only pairs whose source exists survive non-strict mode"
-               if bad is None else f"source={bad[0]}, target={bad[1]}, strict={bad[2]} over names {ctx}: got {bad[3]}, want {bad[4]} (pairs misaligned or dropped)", m.loc(rs))
+               if bad is None else f"source={bad[0]}, target={bad[1]}, strict={bad[2]} over names {ctx}: got {bad[3]}, want {bad[4]} (pairs misaligned or dropped)", m.loc(rs), sure=True)
     except fin.NotFinite as ex:
         chk.undecided("C19-R2", "databoxes.main.Databox._resolve_source_target_names", f"not evaluable: {ex}", m.loc(rs))
     # rename/remove/keep act on exactly the resolved names
